@@ -10,9 +10,15 @@ struct C02 : Harness {
         return rc::gen::exec([]() {
             Program p;
             p.push_back(mkop("new.mk").set("fill", *rc::gen::element(0, 0xA5, 0xFF)));
-            Bytes key = *gbytes(16);
+            Bytes key;
+            // one or two keyings of the same schedule: "a freshly keyed schedule uses the all-zero tweak" also after a tweak
+            // was stored under the previous key (same or another round count, same or another key)
+            int epochs = *chance(35) ? 2 : 1, rounds0 = *irange(5, 8);
+            for (int epoch = 0; epoch < epochs; ++epoch) {
+            if (epoch == 0 || !*chance(30)) key = *gbytes(16);
             if (*chance(8)) for (int i = 0; i < 8; ++i) key[8 + i] = key[i];      // k1 == k0
-            p.push_back(mkop("mk.set_key").set("s", 0).set("key", key).set("len", 16).set("rounds", *irange(5, 8)).set("mode", *irange(0, 1)).set("ko", *goffset()));
+            int rounds = (epoch == 0 || *chance(65)) ? rounds0 : *irange(5, 8);
+            p.push_back(mkop("mk.set_key").set("s", 0).set("key", key).set("len", 16).set("rounds", rounds).set("mode", *irange(0, 1)).set("ko", *goffset()));
             // coinciding arguments (tweak == k0 / k1, block == tweak, block == k0): legal inputs an "equal, so skip" shortcut needs
             auto related = [&key](const Bytes &other) {
                 int w = *irange(0, 2);
@@ -20,7 +26,7 @@ struct C02 : Harness {
                 if (w == 1) return Bytes(key.begin() + 8, key.end());
                 return other;
             };
-            int path = *irange(0, 3);   // 0 never set, 1 set_tweak, 2 set_tweak(NULL) after a non-zero one, 3 per-call only
+            int path = (epochs == 2 && epoch == 0 && *chance(70)) ? 1 : *irange(0, 3);   // 0 never set, 1 set_tweak, 2 set_tweak(NULL) after a non-zero one, 3 per-call only
             Bytes tw(8, 0);
             if (path == 1 || path == 2) {
                 tw = *gbytes(8);
@@ -42,6 +48,7 @@ struct C02 : Harness {
                     Op e = mkop("mk.crypt_tw"); e.set("s", 0).set("in", *gbytes(8)).set("tweak", *gbytes(8)).set("io", *goffset()).set("oo", *goffset()).set("to", *goffset());
                     p.push_back(e);
                 }
+            }
             }
             return p;
         });
@@ -67,6 +74,16 @@ struct C02 : Harness {
             st.count(std::string("rounds") + std::to_string(p[1].geti("rounds")) + (p[1].geti("mode") ? "/enc" : "/dec"), blocks);
             bool null_tw = false; for (auto &op : p) if (op.name == "mk.set_tweak" && op.isnull("tweak")) null_tw = true;
             if (null_tw) st.count("null-tweak-after-nonzero");
+            {   // re-keyed while a non-zero tweak was stored, and then processed with the stored tweak before any new set_tweak
+                bool stored_nz = false, armed = false, hit = false; int keyings = 0;
+                for (auto &op : p) {
+                    if (op.name == "mk.set_tweak") { stored_nz = false; const Bytes *b = op.getb("tweak"); if (b) for (auto v : *b) stored_nz = stored_nz || v; armed = false; }
+                    if (op.name == "mk.set_key") { ++keyings; armed = stored_nz; stored_nz = false; }
+                    if (op.name == "mk.crypt" && armed) hit = true;
+                }
+                if (keyings > 1) st.count("re-keyed");
+                if (hit) st.count("re-keyed-over-nonzero-tweak-then-stored-tweak-crypt");
+            }
             if (p[1].getb("key")->at(0) & 0x80) st.count("k0-msb-set");
             (void)percall;
             st.extra["blocks"] += blocks;
